@@ -1,5 +1,6 @@
 import XalanModel.C17.CountersProofs
 import XalanModel.C17.FormatListGroupingProofs
+import XalanModel.C17.PatternCache
 import XalanModel.C17.NavigateProofs
 /-!
 # C17 — `xsl:number` counts per the Recommendation, independent of history; formatting decodes back
@@ -208,6 +209,33 @@ theorem number_spec_any_zero_counterexample :
     (getCountListZ false exDoc c (fun a b => decide (a ≤ b)) [] 2).2 = [0] ∧
     numberSpec exDoc .any (c.countAt 2) c.fromP 2 = [0] := by
   exact ⟨by decide +kernel, by decide +kernel, by decide +kernel⟩
+
+/-! ## The run-time pattern cache behind the default count pattern -/
+
+/-- **pattern_cache_never_serves_prefixed.** `createMatchPattern(str, resolver)`, with the admission condition the
+current source has (`Generated.C17.bypassesCache`, 64-bit `size_type` arithmetic): every pattern string that has a
+colon which is not its last character and is not followed by a second colon — i.e. every string with a namespace
+prefix, whatever its length — is compiled with the caller's resolver and never answered from, nor stored into, the
+cache that is keyed on the string alone.  (Otherwise the default count pattern compiled for the first node named
+`p:x` would be reused for a node whose `p` is bound to another namespace.) -/
+theorem pattern_cache_never_serves_prefixed (s : List Nat) (hlen : s.length < 2 ^ 64) (h : PrefixColon s) :
+    servedFromCache s = false := by
+  obtain ⟨h1, h2⟩ := h
+  unfold servedFromCache bypassesCache
+  simp only [Bool.not_eq_false', Bool.and_eq_true, decide_eq_true_eq]
+  refine ⟨?_, h2⟩
+  omega
+
+/-- the strings `getCountMatchPattern` builds for a node with a prefixed name — `prefix:local` for an element,
+`@prefix:local` for an attribute, for prefixes of **any** length ≥ 0 — bypass the cache -/
+theorem default_count_pattern_not_cached (lead pre loc : List Nat) (hl : 58 ∉ lead) (hp : 58 ∉ pre) (c : Nat)
+    (cs : List Nat) (hloc : loc = c :: cs) (hc : c ≠ 58) (hlen : (lead ++ pre ++ 58 :: loc).length < 2 ^ 64) :
+    servedFromCache (lead ++ pre ++ 58 :: loc) = false :=
+  pattern_cache_never_serves_prefixed _ hlen (qname_prefixColon lead pre loc hl hp c cs hloc hc)
+
+/-- non-vacuity: `p:i` (one-letter prefix), `@pre:k`; and an unprefixed name *is* cached -/
+example : servedFromCache [112, 58, 105] = false ∧ servedFromCache [64, 112, 114, 101, 58, 107] = false ∧
+    servedFromCache [105] = true ∧ PrefixColon [112, 58, 105] := by decide
 
 /-! ## Alphabetic numbering -/
 
